@@ -26,6 +26,9 @@ def ListOfDicts_head_decorators : List String := []
 /-- the signature of dataiter/list_of_dicts.py: ListOfDicts.head: parameters in order, with the source text of their defaults -/
 def ListOfDicts_head_signature : List String := ["self", "n=None"]
 
+/-- the calls of dataiter/list_of_dicts.py: ListOfDicts.head in the order Python makes them along the source text -/
+def ListOfDicts_head_call_order : List String := ["len", "min", "self._new"]
+
 /-- dataiter/list_of_dicts.py: ListOfDicts.tail (sha256 of the function source: 7f6d393a90721779) -/
 def ListOfDicts_tail (truth : Term → Bool) (n_is_None : Bool) (dataiter_DEFAULT_PEEK_ITEMS : Int) (len_self : Int) (n : Int) : Out :=
   if n_is_None then
@@ -41,6 +44,9 @@ def ListOfDicts_tail_decorators : List String := []
 
 /-- the signature of dataiter/list_of_dicts.py: ListOfDicts.tail: parameters in order, with the source text of their defaults -/
 def ListOfDicts_tail_signature : List String := ["self", "n=None"]
+
+/-- the calls of dataiter/list_of_dicts.py: ListOfDicts.tail in the order Python makes them along the source text -/
+def ListOfDicts_tail_call_order : List String := ["len", "min", "len", "self._new"]
 
 /-- dataiter/list_of_dicts.py: ListOfDicts.filter (sha256 of the function source: 31c775b48c97c0e5) -/
 def ListOfDicts_filter (truth : Term → Bool) : Out :=
@@ -63,6 +69,9 @@ def ListOfDicts_filter_decorators : List String := ["deco.new_from_generator"]
 /-- the signature of dataiter/list_of_dicts.py: ListOfDicts.filter: parameters in order, with the source text of their defaults -/
 def ListOfDicts_filter_signature : List String := ["self", "function=None", "**key_value_pairs"]
 
+/-- the calls of dataiter/list_of_dicts.py: ListOfDicts.filter in the order Python makes them along the source text -/
+def ListOfDicts_filter_call_order : List String := ["callable", "function", "key_value_pairs.keys", "operator.itemgetter", "key_value_pairs.values", "tuple", "len", "extract"]
+
 /-- dataiter/list_of_dicts.py: ListOfDicts.filter_out (sha256 of the function source: 724c8d5816387522) -/
 def ListOfDicts_filter_out (truth : Term → Bool) : Out :=
   if truth (Term.app "callable" [(Term.sym "function")]) then
@@ -83,6 +92,9 @@ def ListOfDicts_filter_out_decorators : List String := ["deco.new_from_generator
 
 /-- the signature of dataiter/list_of_dicts.py: ListOfDicts.filter_out: parameters in order, with the source text of their defaults -/
 def ListOfDicts_filter_out_signature : List String := ["self", "function=None", "**key_value_pairs"]
+
+/-- the calls of dataiter/list_of_dicts.py: ListOfDicts.filter_out in the order Python makes them along the source text -/
+def ListOfDicts_filter_out_call_order : List String := ["callable", "function", "key_value_pairs.keys", "operator.itemgetter", "key_value_pairs.values", "tuple", "len", "extract"]
 
 /-- dataiter/list_of_dicts.py: ListOfDicts.unique (sha256 of the function source: fa2d027f167b0fd0) -/
 def ListOfDicts_unique (truth : Term → Bool) : Out :=
@@ -111,6 +123,9 @@ def ListOfDicts_unique_decorators : List String := ["deco.new_from_generator"]
 /-- the signature of dataiter/list_of_dicts.py: ListOfDicts.unique: parameters in order, with the source text of their defaults -/
 def ListOfDicts_unique_signature : List String := ["self", "*keys"]
 
+/-- the calls of dataiter/list_of_dicts.py: ListOfDicts.unique in the order Python makes them along the source text -/
+def ListOfDicts_unique_call_order : List String := ["set", "set", "set", "operator.itemgetter", "extract", "found_ids.add"]
+
 /-- dataiter/list_of_dicts.py: ListOfDicts.sort (sha256 of the function source: ff89d8a4564797f0) -/
 def ListOfDicts_sort (truth : Term → Bool) : Out :=
   let data' : Term := (Term.sym "self");
@@ -124,6 +139,9 @@ def ListOfDicts_sort_decorators : List String := []
 /-- the signature of dataiter/list_of_dicts.py: ListOfDicts.sort: parameters in order, with the source text of their defaults -/
 def ListOfDicts_sort_signature : List String := ["self", "**key_dir_pairs"]
 
+/-- the calls of dataiter/list_of_dicts.py: ListOfDicts.sort in the order Python makes them along the source text -/
+def ListOfDicts_sort_call_order : List String := ["key_dir_pairs.items", "list", "ValueError", "sorted", "self._new"]
+
 /-- dataiter/list_of_dicts.py: ListOfDicts.modify (sha256 of the function source: 193088e74915f420) -/
 def ListOfDicts_modify (truth : Term → Bool) : Out :=
   let key_function_pairs' : Term := (Term.app ".items" [(Term.sym "key_function_pairs")]);
@@ -136,6 +154,9 @@ def ListOfDicts_modify_decorators : List String := ["deco.obsoletes", "deco.new_
 /-- the signature of dataiter/list_of_dicts.py: ListOfDicts.modify: parameters in order, with the source text of their defaults -/
 def ListOfDicts_modify_signature : List String := ["self", "**key_function_pairs"]
 
+/-- the calls of dataiter/list_of_dicts.py: ListOfDicts.modify in the order Python makes them along the source text -/
+def ListOfDicts_modify_call_order : List String := ["key_function_pairs.items", "function"]
+
 /-- dataiter/list_of_dicts.py: ListOfDicts.modify_if (sha256 of the function source: e9940e0a6aa6f8a5) -/
 def ListOfDicts_modify_if (truth : Term → Bool) : Out :=
   let key_function_pairs' : Term := (Term.app ".items" [(Term.sym "key_function_pairs")]);
@@ -147,6 +168,9 @@ def ListOfDicts_modify_if_decorators : List String := ["deco.obsoletes", "deco.n
 
 /-- the signature of dataiter/list_of_dicts.py: ListOfDicts.modify_if: parameters in order, with the source text of their defaults -/
 def ListOfDicts_modify_if_signature : List String := ["self", "predicate", "**key_function_pairs"]
+
+/-- the calls of dataiter/list_of_dicts.py: ListOfDicts.modify_if in the order Python makes them along the source text -/
+def ListOfDicts_modify_if_call_order : List String := ["key_function_pairs.items", "predicate", "function"]
 
 /-- dataiter/list_of_dicts.py: ListOfDicts.fill_missing_keys (sha256 of the function source: 0c38d21a4f15d752) -/
 def ListOfDicts_fill_missing_keys (truth : Term → Bool) : Out :=
@@ -166,6 +190,9 @@ def ListOfDicts_fill_missing_keys_decorators : List String := ["deco.obsoletes",
 /-- the signature of dataiter/list_of_dicts.py: ListOfDicts.fill_missing_keys: parameters in order, with the source text of their defaults -/
 def ListOfDicts_fill_missing_keys_signature : List String := ["self", "**key_value_pairs"]
 
+/-- the calls of dataiter/list_of_dicts.py: ListOfDicts.fill_missing_keys in the order Python makes them along the source text -/
+def ListOfDicts_fill_missing_keys_call_order : List String := ["self.keys", "dict.fromkeys", "key_value_pairs.items"]
+
 /-- dataiter/list_of_dicts.py: ListOfDicts.select (sha256 of the function source: 2bc5415f4be84868) -/
 def ListOfDicts_select (truth : Term → Bool) : Out :=
   let eff0 : Term := (Term.app "for" [(Term.sym "item"), (Term.sym "self"), (Term.app "block" [(Term.app "yield" [(Term.app "AttributeDict" [(Term.app "DictComp" [(Term.app "pair" [(Term.sym "x"), (Term.app "getitem" [(Term.sym "item"), (Term.sym "x")])]), (Term.app "in" [(Term.sym "x"), (Term.sym "keys"), (Term.app "if" [(Term.app "In" [(Term.sym "x"), (Term.sym "item")])])])])])])])]);
@@ -177,6 +204,9 @@ def ListOfDicts_select_decorators : List String := ["deco.obsoletes", "deco.new_
 /-- the signature of dataiter/list_of_dicts.py: ListOfDicts.select: parameters in order, with the source text of their defaults -/
 def ListOfDicts_select_signature : List String := ["self", "*keys"]
 
+/-- the calls of dataiter/list_of_dicts.py: ListOfDicts.select in the order Python makes them along the source text -/
+def ListOfDicts_select_call_order : List String := ["AttributeDict"]
+
 /-- dataiter/list_of_dicts.py: ListOfDicts.unselect (sha256 of the function source: f3ada5a83c89cd2e) -/
 def ListOfDicts_unselect (truth : Term → Bool) : Out :=
   let eff0 : Term := (Term.app "for" [(Term.sym "item"), (Term.sym "self"), (Term.app "block" [(Term.app "for" [(Term.sym "key"), (Term.sym "keys"), (Term.app "block" [(Term.app "if" [(Term.app "In" [(Term.sym "key"), (Term.sym "item")]), (Term.app "block" [(Term.app "del" [(Term.app "getitem" [(Term.sym "item"), (Term.sym "key")])])]), (Term.app "block" [])])])]), (Term.app "yield" [(Term.sym "item")])])]);
@@ -187,6 +217,9 @@ def ListOfDicts_unselect_decorators : List String := ["deco.obsoletes", "deco.ne
 
 /-- the signature of dataiter/list_of_dicts.py: ListOfDicts.unselect: parameters in order, with the source text of their defaults -/
 def ListOfDicts_unselect_signature : List String := ["self", "*keys"]
+
+/-- the calls of dataiter/list_of_dicts.py: ListOfDicts.unselect in the order Python makes them along the source text -/
+def ListOfDicts_unselect_call_order : List String := []
 
 /-- dataiter/list_of_dicts.py: ListOfDicts.rename (sha256 of the function source: 72f79345b7a532f7) -/
 def ListOfDicts_rename (truth : Term → Bool) : Out :=
@@ -200,6 +233,9 @@ def ListOfDicts_rename_decorators : List String := ["deco.obsoletes", "deco.new_
 
 /-- the signature of dataiter/list_of_dicts.py: ListOfDicts.rename: parameters in order, with the source text of their defaults -/
 def ListOfDicts_rename_signature : List String := ["self", "**to_from_pairs"]
+
+/-- the calls of dataiter/list_of_dicts.py: ListOfDicts.rename in the order Python makes them along the source text -/
+def ListOfDicts_rename_call_order : List String := ["to_from_pairs.items", "renames.get", "item.keys", "item.values", "zip", "AttributeDict"]
 
 /-- dataiter/list_of_dicts.py: ListOfDicts.append (sha256 of the function source: f0aac02460a254c6) -/
 def ListOfDicts_append (truth : Term → Bool) : Out :=
@@ -217,6 +253,9 @@ def ListOfDicts_append_decorators : List String := ["deco.new_from_generator"]
 /-- the signature of dataiter/list_of_dicts.py: ListOfDicts.append: parameters in order, with the source text of their defaults -/
 def ListOfDicts_append_signature : List String := ["self", "item"]
 
+/-- the calls of dataiter/list_of_dicts.py: ListOfDicts.append in the order Python makes them along the source text -/
+def ListOfDicts_append_call_order : List String := ["isinstance", "AttributeDict", "itertools.chain"]
+
 /-- dataiter/list_of_dicts.py: ListOfDicts.extend (sha256 of the function source: 8862b06c0b212d1d) -/
 def ListOfDicts_extend (truth : Term → Bool) : Out :=
   if (!truth (Term.app "isinstance" [(Term.sym "other"), (Term.app ".__class__" [(Term.sym "self")])])) then
@@ -232,6 +271,9 @@ def ListOfDicts_extend_decorators : List String := ["deco.new_from_generator"]
 
 /-- the signature of dataiter/list_of_dicts.py: ListOfDicts.extend: parameters in order, with the source text of their defaults -/
 def ListOfDicts_extend_signature : List String := ["self", "other"]
+
+/-- the calls of dataiter/list_of_dicts.py: ListOfDicts.extend in the order Python makes them along the source text -/
+def ListOfDicts_extend_call_order : List String := ["isinstance", "self.__class__", "itertools.chain"]
 
 /-- dataiter/list_of_dicts.py: ListOfDicts.insert (sha256 of the function source: 1792b768d97c6586) -/
 def ListOfDicts_insert (truth : Term → Bool) : Out :=
@@ -253,6 +295,9 @@ def ListOfDicts_insert_decorators : List String := ["deco.new_from_generator"]
 /-- the signature of dataiter/list_of_dicts.py: ListOfDicts.insert: parameters in order, with the source text of their defaults -/
 def ListOfDicts_insert_signature : List String := ["self", "index", "item"]
 
+/-- the calls of dataiter/list_of_dicts.py: ListOfDicts.insert in the order Python makes them along the source text -/
+def ListOfDicts_insert_call_order : List String := ["isinstance", "AttributeDict", "list", "items.insert"]
+
 /-- dataiter/list_of_dicts.py: ListOfDicts.reverse (sha256 of the function source: 8accc042c92a780d) -/
 def ListOfDicts_reverse (truth : Term → Bool) : Out :=
   let eff0 : Term := (Term.app "yield-from" [(Term.app "reversed" [(Term.sym "self")])]);
@@ -263,6 +308,9 @@ def ListOfDicts_reverse_decorators : List String := ["deco.new_from_generator"]
 
 /-- the signature of dataiter/list_of_dicts.py: ListOfDicts.reverse: parameters in order, with the source text of their defaults -/
 def ListOfDicts_reverse_signature : List String := ["self"]
+
+/-- the calls of dataiter/list_of_dicts.py: ListOfDicts.reverse in the order Python makes them along the source text -/
+def ListOfDicts_reverse_call_order : List String := ["reversed"]
 
 /-- dataiter/list_of_dicts.py: ListOfDicts.__add__ (sha256 of the function source: 40588e0cbd7aba14) -/
 def ListOfDicts_add (truth : Term → Bool) : Out :=
@@ -278,6 +326,9 @@ def ListOfDicts_add_decorators : List String := ["deco.new_from_generator"]
 /-- the signature of dataiter/list_of_dicts.py: ListOfDicts.__add__: parameters in order, with the source text of their defaults -/
 def ListOfDicts_add_signature : List String := ["self", "other"]
 
+/-- the calls of dataiter/list_of_dicts.py: ListOfDicts.__add__ in the order Python makes them along the source text -/
+def ListOfDicts_add_call_order : List String := ["isinstance", "TypeError", "itertools.chain"]
+
 /-- dataiter/list_of_dicts.py: ListOfDicts.__mul__ (sha256 of the function source: f14316ed33ac8fc9) -/
 def ListOfDicts_mul (truth : Term → Bool) : Out :=
   if (!truth (Term.app "isinstance" [(Term.sym "other"), (Term.sym "int")])) then
@@ -292,6 +343,9 @@ def ListOfDicts_mul_decorators : List String := ["deco.new_from_generator"]
 /-- the signature of dataiter/list_of_dicts.py: ListOfDicts.__mul__: parameters in order, with the source text of their defaults -/
 def ListOfDicts_mul_signature : List String := ["self", "other"]
 
+/-- the calls of dataiter/list_of_dicts.py: ListOfDicts.__mul__ in the order Python makes them along the source text -/
+def ListOfDicts_mul_call_order : List String := ["isinstance", "TypeError", "range"]
+
 /-- dataiter/list_of_dicts.py: ListOfDicts.__rmul__ (sha256 of the function source: eb7aafc36c1b7381) -/
 def ListOfDicts_rmul (truth : Term → Bool) : Out :=
   Out.ret [] (Term.app ".__mul__" [(Term.sym "self"), (Term.sym "other")])
@@ -301,6 +355,9 @@ def ListOfDicts_rmul_decorators : List String := []
 
 /-- the signature of dataiter/list_of_dicts.py: ListOfDicts.__rmul__: parameters in order, with the source text of their defaults -/
 def ListOfDicts_rmul_signature : List String := ["self", "other"]
+
+/-- the calls of dataiter/list_of_dicts.py: ListOfDicts.__rmul__ in the order Python makes them along the source text -/
+def ListOfDicts_rmul_call_order : List String := ["self.__mul__"]
 
 /-- dataiter/list_of_dicts.py: ListOfDicts.__getitem__ (sha256 of the function source: 718d0b7dc6e2afed) -/
 def ListOfDicts_getitem (truth : Term → Bool) : Out :=
@@ -312,5 +369,8 @@ def ListOfDicts_getitem_decorators : List String := []
 
 /-- the signature of dataiter/list_of_dicts.py: ListOfDicts.__getitem__: parameters in order, with the source text of their defaults -/
 def ListOfDicts_getitem_signature : List String := ["self", "index"]
+
+/-- the calls of dataiter/list_of_dicts.py: ListOfDicts.__getitem__ in the order Python makes them along the source text -/
+def ListOfDicts_getitem_call_order : List String := ["super", "super().__getitem__", "isinstance", "self._new"]
 
 end DI.Gen
